@@ -4,7 +4,7 @@ import warnings
 
 from hypothesis import strategies as st
 
-from anytree import TreeError, util
+from anytree import SymlinkNodeMixin, TreeError, util
 
 from .. import forest, nodes, refs, shapes, strategies
 from ..core import Violation
@@ -15,6 +15,9 @@ RULE = (
     "cases: (a) every ordered tree shape up to 7 (quick) / 10 (thorough) nodes, every node checked, commonancestors on all "
     "pairs and (<= 6 nodes) all triples plus 0/1/repeated arguments; (b) Hypothesis trees up to 60 nodes; (c) mutation "
     "histories (parent/children assignments and deletions on up to 8 nodes) with all attributes re-checked after every step. "
+    "Node classes: all of vf/nodes.py (Node, AnyNode, user NodeMixin/LightNodeMixin classes, classes with own __eq__/__bool__/__len__/container behaviour, "
+    "SymlinkNode with targets in another tree or - class SelfLinks - in the same tree; for a link the target, the target's root and the link again "
+    "are checked right after the link, so neither may disturb the other's answers). "
     "Non-trivial = the case contains a node with depth >= 1 that has a sibling or a descendant (shape cases), or a history "
     "with >= 3 successful link changes. Enumerated cases distinct by construction; generated ones hashed."
 )
@@ -121,6 +124,11 @@ def check_all(tree, labels, acc, triples):
         depth, nsib, ndesc = check_node(node, labels)
         if depth >= 1 and (nsib or ndesc):
             nontrivial = True
+        if isinstance(node, SymlinkNodeMixin):
+            # a link and its target are two nodes with two positions: asking one must not change what the other answers
+            target = node.target
+            for other in (target, target.root, node):
+                check_node(other, labels)
     check_common([], labels)
     for a in tree:
         check_common([a], labels)
@@ -224,7 +232,7 @@ def check_case(case, acc):
 def _enum_cases(max_nodes, index, count):
     k = 0
     for shape in shapes.trees_upto(max_nodes):
-        for cls in ("Node", "SlotLM", "SymlinkNode", "EqNode", "FalsyNode", "LenNode", "EqSlotLM", "ListNode", "TupleNode"):
+        for cls in ("Node", "SlotLM", "SymlinkNode", "SelfLinks", "EqNode", "FalsyNode", "LenNode", "EqSlotLM", "ListNode", "TupleNode"):
             k += 1
             if k % count == index:
                 yield {"kind": "shape", "shape": forest.to_list(shape), "cls": cls, "via": "parent" if k % 2 else "children"}
@@ -232,7 +240,7 @@ def _enum_cases(max_nodes, index, count):
 
 @st.composite
 def random_cases(draw):
-    cls = draw(st.sampled_from(nodes.TREE_CLASSES))
+    cls = draw(st.sampled_from(nodes.TREE_CLASSES + ["SelfLinks"]))
     if draw(st.booleans()):
         shape = draw(strategies.tree_shapes(max_nodes=40, min_nodes=3))
         return {"kind": "shape", "shape": shape, "cls": cls, "via": draw(st.sampled_from(["parent", "children"]))}
